@@ -285,11 +285,15 @@ func (c *FnVC) applyContract(x *ssa.Call, ct *Contract, f *ssa.Function, sig *ty
 	c.bindResults(env, sig, rv)
 	preOld := c.newEval(f, env, preHeap, nil)
 	post := c.newEval(f, env, copyHeap(c.cur), preOld)
+	preOld.externCallee, post.externCallee = ct.Extern, ct.Extern
 	if f == nil {
 		preOld.pkg = c.fn.Pkg.Pkg
 		post.pkg = c.fn.Pkg.Pkg
 	}
 	for _, e := range ct.Ensures {
+		if e.AssumedOnly {
+			c.trustedUsed["assumed ghost-event clause of "+name+": "+e.Text] = true
+		}
 		t, err := post.boolExpr(e.Expr)
 		if err != nil {
 			c.errorf("%s: ensures of %s %q: %v", c.fnName(), name, e.Text, err)
